@@ -100,7 +100,7 @@ def emit_expr(o, e):
         # inside a foreach over a list of objects: a field of the current element, through the iterator or by index
         if ITER[-1][1] is not None:
             return getattr(ITER[-1][1], e["name"])
-        return getattr(ITER[-1][2][ITER[-1][0]], e["name"])
+        return getattr(ITER[-1][2]()[ITER[-1][0]], e["name"])
     if k == "idx":
         return ITER[-1][0]
     if k == "lit":
@@ -138,16 +138,30 @@ def emit_stmts(o, stmts):
     for s in stmts:
         k = s["k"]
         if k == "foreach_o":
-            lst = o
-            for n in s["list"]:
-                lst = step(lst, n)
+            if s.get("rel"):
+                # a list of the current element of the enclosing foreach: through its iterator, or by its index; a
+                # list expression is consumed by the statement it is used in, so it is written out anew for every use
+                outer = ITER[-1]
+
+                def mk_lst(_s=s, _outer=outer):
+                    x = _outer[1] if _outer[1] is not None else _outer[2]()[_outer[0]]
+                    for n in _s["list"]:
+                        x = step(x, n)
+                    return x
+            else:
+                def mk_lst(_s=s):
+                    x = o
+                    for n in _s["list"]:
+                        x = step(x, n)
+                    return x
+            lst = mk_lst()
             with vsc.foreach(lst, it=s["it"], idx=s["idx"]) as x:
                 if s["it"] and s["idx"]:
-                    ITER.append((x[0], x[1], lst))
+                    ITER.append((x[0], x[1], mk_lst))
                 elif s["it"]:
-                    ITER.append((None, x, lst))
+                    ITER.append((None, x, mk_lst))
                 else:
-                    ITER.append((x, None, lst))
+                    ITER.append((x, None, mk_lst))
                 try:
                     emit_stmts(o, s["body"])
                 finally:
@@ -337,6 +351,9 @@ def run_world(scn):
 
             def under(p):
                 return list(p[:len(lp)]) == lp and len(p) > len(lp) and p[len(lp)] != "size"
+            for p, cn in opaths:
+                if cn is None and under(p):
+                    obj_at(root, p).get_model().name_elems()        # lists held by the new elements
             for p, decl in spaths:
                 if under(p) and not decl.get("is_size"):
                     o = obj_at(root, p[:-1])
